@@ -715,4 +715,55 @@ func runC11(c *eng.Ctx) {
 		}
 		c.R.End(idx, eng.Hash("c11", s.Canon(), len(r.Ops)), pairs >= 2)
 	}
+	// the same oracle over histories in which one constructor invocation (during a resolution)
+	// fails once and the request is repeated: what the failed attempt had created for it stays
+	// open - and is closed in order - like everything else the scope owns
+	nf := c.Pick(300, 5000)
+	for k := 0; k < nf; k++ {
+		idx, mine := cr.next()
+		if !mine {
+			continue
+		}
+		rng := cr.rng(idx)
+		s, m := GenSpec(rng, disposableBias(rng))
+		if s == nil {
+			continue
+		}
+		c.R.Begin(idx)
+		base := NewRun(s, m, nil, nil)
+		base.Build()
+		if base.Built {
+			GenScript(rng, base, 2+rng.Intn(4), 8+rng.Intn(12), 10)
+			base.Finish()
+		}
+		o := Digest(base)
+		var cands []int
+		for ri, run := range o.Runs {
+			if run.Reg >= 0 && run.Op > 0 && run.Op < len(base.Ops) && (base.Ops[run.Op].Kind == OpGet || base.Ops[run.Op].Kind == OpGetGroup) && len(run.Args) > 0 {
+				cands = append(cands, ri)
+			}
+		}
+		if !base.Built || len(cands) == 0 {
+			c.R.End(idx, eng.Hash("c11-retry-none", s.Canon()), false)
+			continue
+		}
+		run := o.Runs[cands[rng.Intn(len(cands))]]
+		kind := rt.FPanic
+		if pool.Ctors[run.Ctor].HasErr && rng.Intn(2) == 0 {
+			kind = rt.FErr
+		}
+		ops := append([]Op{}, base.Ops[:run.Op+1]...)
+		ops = append(ops, base.Ops[run.Op])
+		ops = append(ops, base.Ops[run.Op+1:]...)
+		fr := replayOps(s, m, ops, []rt.Fault{{Ctor: run.Ctor, Nth: run.Nth, Kind: kind, PanicIdx: k % len(rt.PanicVals)}}, nil)
+		fo := Digest(fr)
+		fs, pairs := MonC11(fr, fo)
+		for i := range fs {
+			fs[i].Sig += ":a-constructor-failed-once"
+		}
+		report(c, "C11", idx, fr, fs)
+		c.R.Count("ordered_pairs_checked", int64(pairs))
+		c.R.Count("retry_after_failure_cases", 1)
+		c.R.End(idx, eng.Hash("c11-retry", s.Canon(), run.Ctor, run.Nth, int(kind)), pairs >= 2)
+	}
 }
